@@ -44,6 +44,8 @@ def run_case(case):
     lab = m.labels()
     out.count("next_calls", 2 * len(idxs))
     out.count("walks", 2)
+    if E.enabled(cfg, "MIN") or E.enabled(cfg, "MAX"):
+        out.excluded["KF2"] = 1          # variant identifiers MIN / MAX are kept out of the pool while KF2 is listed
     out.nontrivial = len(m.runs) >= 2 or lab["touch_type_min"] or lab["touch_type_max"] or lab["perm"] != "identity"
     out.fingerprint = J.fp(m.repr, m.values if m.n <= 64 else [m.n, m.runs[:20], m.values[:8]], J.cfg_text(cfg))
     out.sample = {"spec": J.abridge_spec(spec), "config": J.cfg_text(cfg), "script_head": sc.lines[:6],
